@@ -153,7 +153,7 @@ PROPS = {
     "C11": clu(_C + "one injected failure per history (quick: 4 sampled positions; thorough: every position of every operation); the store/plugin/engine snapshot before and after every failed call is compared; " + _NT,
                level="fault_enumeration", quick={"seconds": 40, "runs": 1200, "sweep": "err:4"}, thorough={"seconds": 1200, "runs": 40000, "sweep": "err:all"},
                probes=["c11_failed_op_unchanged", "failed_set_node_injected", "failed_realloc_injected", "failed_replace_injected", "failed_remove_node_injected", "failed_add_node_injected"]),
-    "C12": clu(_C + "create-heavy mix; the result stream of every create is compared with the plan the deployment actually executed (read from its in-progress markers at every scheduler step) and with store / engine state; one injected failure per history (sampled / swept); " + _NT,
+    "C12": clu(_C + "create-heavy mix (an eighth of the creates go through the real RPC handler with a client whose stream refuses every message after the first or second; an eighth run on machines that take minutes per container, without injected failures); the result stream of every create is compared with the plan the deployment actually executed (read from its in-progress markers at every scheduler step) and with store / engine state; one injected failure per history (sampled / swept); " + _NT,
                level="fault_enumeration", quick={"seconds": 40, "runs": 1200, "sweep": "err:4"}, thorough={"seconds": 1200, "runs": 40000, "sweep": "err:all"}),
     "C13": clu(_C + "while every create runs, Store.GetDeployStatus is evaluated at *every* scheduler step (everything else parked) against recorded workloads and the markers' initial values; one injected failure per history among the steps of deploying instances; concurrent histories checked at quiescence; " + _NT,
                level="fault_enumeration", quick={"seconds": 40, "runs": 1000, "sweep": "err:3"}, thorough={"seconds": 1200, "runs": 40000, "sweep": "err:all"},
@@ -186,7 +186,7 @@ PROPS = {
     "C07": res(_R, extra_probes=["capacity_query", "capacity_unlimited"]),
     "C08": res(_R, extra_probes=["rollback_alloc_ok", "rollback_realloc_ok", "release_ok", "alloc_injected_failure"]),
     "C15": res(_R, extra_probes=["c15_corrupted", "c15_fix_reported_diffs"]),
-    "C32": res(_R + " Half of the workers run the whole-system harness instead (" + _C + "after every operation that changed CPU bindings on a node the cores pushed to the engine for every unbound workload on it are compared with the cores that have a full free share; one injected failure per history, sampled / swept);",
+    "C32": res(_R + " Half of the workers run the whole-system harness instead (" + _C + "after every operation that changed CPU bindings on a node the cores pushed to the engine for every unbound workload on it are compared with the cores that have a full free share; one injected failure per history, sampled / swept; a third of the histories are concurrent instead: 2-4 clients change bindings at once, engines take 3 s per parameter update, no injected failure, checked at quiescence);",
                extra_probes=["remap_unbound_workload", "remap_no_free_core", "c32_remap_checked"], harnesses=["res", "cluster"], sweep_only=["cluster"],
                quick={"seconds": 35, "runs": 24000, "sweep": "err:3"}, thorough={"seconds": 900, "runs": 4000000, "sweep": "err:all"}),
     "C33": res(_R, extra_probes=["c33_nochange_realloc"]),
